@@ -381,6 +381,37 @@ def run_seed(machine: Machine, seed: int, avoid=(),
     return plan, res
 
 
+def execute_isolated(machine: Machine, plan: dict) -> dict:
+    """execute() in a forked child, so that re-executions (shrinking) cannot
+    see library state left behind by earlier executions in this process."""
+    import pickle
+    r, w = os.pipe()
+    pid = os.fork()
+    if pid == 0:
+        code = 0
+        try:
+            os.close(r)
+            res = execute(machine, plan)
+            slim = {k: res[k] for k in ('verdict', 'violation', 'error',
+                                        'steps', 'digest')}
+            with os.fdopen(w, 'wb') as fh:
+                pickle.dump(slim, fh, protocol=4)
+        except BaseException:  # noqa: BLE001
+            code = 3
+        finally:
+            os._exit(code)
+    os.close(w)
+    with os.fdopen(r, 'rb') as fh:
+        blob = fh.read()
+    os.waitpid(pid, 0)
+    try:
+        return pickle.loads(blob)
+    except Exception:  # noqa: BLE001
+        return {'verdict': 'HARNESS', 'violation': None,
+                'error': 'isolated execution ended without a result',
+                'steps': 0, 'digest': ''}
+
+
 # --------------------------------------------------------------------------
 # shrinking
 # --------------------------------------------------------------------------
@@ -405,7 +436,7 @@ def shrink(machine: Machine, plan: dict, viol: dict, budget: int = 300,
         if used >= budget or (deadline and time.time() > deadline):
             return False
         used += 1
-        r = execute(machine, cand)
+        r = execute_isolated(machine, cand)
         if r['verdict'] == 'VIOLATION' and same_class(r['violation'], viol):
             best = cand
             best_v = r['violation']
@@ -555,26 +586,64 @@ def match_known(known, pid, plan, viol):
 # --------------------------------------------------------------------------
 def run_chunk(machine: Machine, base_seed: int, indices, avoid_frac_known,
               known, shrink_budget, keep_samples, run_timeout,
-              ops_scale=1.0):
-    """Run the seeds of one chunk; shrink and classify violations."""
+              ops_scale=1.0, isolate=True):
+    """Run the seeds of one chunk; shrink and classify violations.
+
+    Every seed runs in its own forked child of this worker, and so does
+    every re-execution made while shrinking; the worker itself never
+    executes library code.  No process-global state of the library under
+    test (class-level caches, module globals, warning registries) can
+    therefore flow from one execution into another: an execution is a
+    function of its plan and the code only, whatever ran before it.
+    """
     import faulthandler
+    import pickle
     out = []
+    open_ids = [k['id'] for k in known if k.get('property') == machine.pid]
     for i in indices:
         seed = derive(base_seed, machine.pid, i)
         # ~70 % of runs avoid the triggers of open known findings
         avoid = ()
-        open_ids = [k['id'] for k in known if k.get('property') == machine.pid]
         if open_ids and (derive(seed, 'avoid') % 100) < avoid_frac_known:
             avoid = tuple(open_ids)
-        faulthandler.dump_traceback_later(run_timeout, exit=True)
         t0 = time.time()
-        plan, res = run_seed(machine, seed, avoid, ops_scale)
+        r, w = os.pipe()
+        pid = os.fork()
+        if pid == 0:                      # child: one run, then exit
+            code = 0
+            try:
+                os.close(r)
+                faulthandler.dump_traceback_later(run_timeout, exit=True)
+                plan, res = run_seed(machine, seed, avoid, ops_scale)
+                faulthandler.cancel_dump_traceback_later()
+                if res['verdict'] != 'OK' or i < keep_samples:
+                    res['plan'] = plan
+                with os.fdopen(w, 'wb') as fh:
+                    pickle.dump(res, fh, protocol=4)
+            except BaseException:  # noqa: BLE001
+                code = 3
+            finally:
+                os._exit(code)
+        os.close(w)
+        with os.fdopen(r, 'rb') as fh:
+            blob = fh.read()
+        _, status = os.waitpid(pid, 0)
+        try:
+            res = pickle.loads(blob)
+        except Exception:  # noqa: BLE001
+            res = {'verdict': 'HARNESS', 'seed': seed,
+                   'machine': machine.name, 'nops': 0, 'steps': 0,
+                   'faults': {}, 'probes': {}, 'sim_time': 0.0,
+                   'sigs': [], 'extra': {}, 'sig': '',
+                   'nontrivial': False, 'digest': '', 'violation': None,
+                   'error': f'run of seed {seed} (index {i}) ended without '
+                            f'a result, wait status {status} (per-run '
+                            'timeout or crash)'}
         res['index'] = i
         res['avoid'] = list(avoid)
         if res['verdict'] == 'VIOLATION':
-            faulthandler.cancel_dump_traceback_later()
-            faulthandler.dump_traceback_later(run_timeout * 20, exit=True)
-            mplan, mviol, used = shrink(machine, plan, res['violation'],
+            mplan, mviol, used = shrink(machine, res['plan'],
+                                        res['violation'],
                                         budget=shrink_budget,
                                         deadline=time.time()
                                         + run_timeout * 15)
@@ -585,9 +654,8 @@ def run_chunk(machine: Machine, base_seed: int, indices, avoid_frac_known,
             if rec is not None:
                 res['verdict'] = 'KNOWN'
                 res['known_id'] = rec['id']
-        faulthandler.cancel_dump_traceback_later()
+            if i >= keep_samples:
+                res.pop('plan', None)
         res['wall'] = time.time() - t0
-        if i < keep_samples or res['verdict'] == 'HARNESS':
-            res['plan'] = plan
         out.append(res)
     return out
